@@ -53,8 +53,9 @@ def _is_doc(st):
     return isinstance(st, ast.Expr) and isinstance(st.value, ast.Constant) and isinstance(st.value.value, str)
 
 
-def function_skeleton(fn, slices):
-    """slices: the slice dicts of this function (py2coq format)"""
+def function_skeleton(fn, slices, elide=None):
+    """slices: the slice dicts of this function (py2coq format); elide: {id(statement): placeholder} - statements that a
+    whole-function translator covers (bridged as a whole against the model): a run of them appears as one placeholder line"""
     by_target = {}
     for sl in slices:
         if "target" in sl:
@@ -93,6 +94,10 @@ def function_skeleton(fn, slices):
     def visit(stmts, depth):
         ind = "  " * depth
         for st in stmts:
+            if elide and id(st) in elide:
+                if not lines or lines[-1] != ind + elide[id(st)]:
+                    lines.append(ind + elide[id(st)])
+                continue
             if _is_doc(st) or _is_logging(st):
                 continue
             if isinstance(st, ast.Assign) and len(st.targets) == 1:
@@ -141,10 +146,11 @@ def function_skeleton(fn, slices):
     return lines
 
 
-def module_skeleton(path, funcs, slices):
-    """funcs: function names; returns {"module": [...], fn: [...]}"""
+def module_skeleton(path, funcs, slices, elide=None):
+    """funcs: function names; returns {"module": [...], fn: [...]}; elide: callback tree -> {id(statement): placeholder}"""
     src = open(path).read()
     tree = ast.parse(src)
+    skip = elide(tree) if elide is not None else None
     out = {"module": []}
     for st in tree.body:
         if isinstance(st, (ast.Import, ast.ImportFrom, ast.FunctionDef, ast.ClassDef)) or _is_doc(st):
@@ -153,7 +159,7 @@ def module_skeleton(path, funcs, slices):
     out["definitions"] = sorted(st.name for st in tree.body if isinstance(st, (ast.FunctionDef, ast.ClassDef)))
     for f in funcs:
         fn = py2coq.find_function(tree, f)
-        out[f] = function_skeleton(fn, [sl for sl in slices if sl["func"] == f])
+        out[f] = function_skeleton(fn, [sl for sl in slices if sl["func"] == f], skip)
     return out
 
 
